@@ -746,6 +746,69 @@ def run_accumulate(case, mon):
             if ids[:1] != ["u"] or "v" not in ids or ids.index("v") < ids.index("u"):
                 mon.violation("accumulate:join:%s" % fam, "joins not in call order: %r" % sql[:200])
                 return
+    # several un-named derived sources in one statement: every one gets a name of its own, whatever the mix of from_() and join()
+    def subs(n):
+        return [Q.from_(r["Table"]("s%d" % i)).select("id", "v") for i in range(n)]
+    layouts = {"from-from-from": lambda a, b, c: Q.from_(a).from_(b).from_(c).select(a.v, b.v, c.v),
+               "from-from-join": lambda a, b, c: Q.from_(a).from_(b).join(c).on(c.id == a.id).select(a.v, b.v, c.v),
+               "from-join-from": lambda a, b, c: Q.from_(a).join(c).on(c.id == a.id).from_(b).select(a.v, b.v, c.v),
+               "table-join-from-join": lambda a, b, c: Q.from_(t).join(a).on(a.id == t.id).from_(b).join(c).on(c.id == t.id).select(a.v, b.v, c.v),
+               "update-from-from-from": lambda a, b, c: Q.update(t).from_(a).from_(b).from_(c).set(t.a, a.v).where(b.id == c.id),
+               "nested-first": lambda a, b, c: Q.from_(Q.from_(a).select("id", "v")).from_(b).from_(c).select(b.v, c.v)}
+    for lname, mk in layouts.items():
+        a_, b_, c_ = subs(3)
+        try:
+            q = mk(a_, b_, c_)
+            sql = render(q, d)
+        except Exception as e:
+            mon.violation("accumulate:unnamed-sources:raises:%s" % type(e).__name__, "%s raised %r" % (lname, e))
+            return
+        mon.count("accumulation_checks")
+        names_ = [x_.alias for x_ in (a_, b_, c_) if x_.alias is not None] + [s_.alias for s_ in getattr(q, "_from", []) if getattr(s_, "alias", None) and s_ not in (a_, b_, c_)]
+        if len(set(names_)) != len(names_) or len(names_) < 3:
+            mon.violation("accumulate:unnamed-sources:%s:%s" % (lname, fam), "three un-named derived sources (%s) were named %s: %r" % (lname, names_, sql[:240]))
+            return
+        if d == "SQLLiteQuery" and not lname.startswith("update"):
+            try:
+                sqlite_prepare(sql.replace('"s0"', '"t1"').replace('"s1"', '"t1"').replace('"s2"', '"t1"'))
+            except sqlite3.Error as e:
+                if "ambiguous" in str(e) or "syntax" in str(e):
+                    mon.violation("accumulate:unnamed-sources:engine:%s" % lname, "SQLite rejects %r: %s" % (sql[:240], e))
+                    return
+    # terms that are no plain columns (functions, constants, expressions) are never subsumed by a star: selected before or after a
+    # Star() object or a table's star they all stay, in call order
+    fn = lambda n: r["fn." + n]  # noqa: E731
+    star_forms = {"Star()": lambda: r["Star"](), "t.star": lambda: t.star, "u.star": lambda: u.star}
+    for sname, mk in star_forms.items():
+        for where in ("between", "first", "last", "same-call"):
+            q = Q.from_(t).join(u).on(t.id == u.id)
+            pre = [fn("Count")(t.id), r["ValueWrapper"](777001)]
+            post = [fn("Abs")(r["ValueWrapper"](777002)), t.a + 777003]
+            if where == "between":
+                q = q.select(*pre).select(mk()).select(*post)
+            elif where == "first":
+                q = q.select(mk()).select(*pre).select(*post)
+            elif where == "last":
+                q = q.select(*pre).select(*post).select(mk())
+            else:
+                q = q.select(*(pre + [mk()] + post))
+            sql = render(q, d)
+            toks = tokenize(sql, d)
+            mon.count("accumulation_checks")
+            sel_end = next((i for i, x in enumerate(toks) if x.kind == "WORD" and x.value == "FROM"), len(toks))
+            marks = []
+            for x in toks[:sel_end]:
+                if x.kind == "WORD" and x.value == "COUNT":
+                    marks.append("count")
+                elif x.kind == "NUM" and str(x.text).startswith("77700"):
+                    marks.append(str(x.text))
+                elif x.text == "*":
+                    marks.append("*")
+            want = {"between": ["count", "777001", "*", "777002", "777003"], "first": ["*", "count", "777001", "777002", "777003"],
+                    "last": ["count", "777001", "777002", "777003", "*"], "same-call": ["count", "777001", "*", "777002", "777003"]}[where]
+            if marks != want:
+                mon.violation("accumulate:select-with-star:%s:%s" % (sname, fam), "select list items around %s (%s) are %s, expected %s: %r" % (sname, where, marks, want, sql[:220]))
+                return
     mon.nontrivial(["accumulate", d])
 
 
